@@ -77,7 +77,7 @@ def build_column(col):
     import numpy as np
     dtype = col["dtype"]
     vals = col["values"]
-    if dtype in ("float64", "float32"):
+    if dtype in ("float64", "float32", "float16"):
         return np.array([np.nan if v is None else v for v in vals], dtype)
     if dtype.startswith("datetime64"):
         arr = np.array([0 if v is None else v for v in vals], "int64").astype(dtype)
